@@ -229,3 +229,35 @@ func Marked(n, base int) []byte {
 	}
 	return Simple(ps, SimpleOpts{}).Bytes()
 }
+
+// HexStr writes arbitrary bytes as a PDF hex string.
+func HexStr(b string) string { return fmt.Sprintf("<%x>", b) }
+
+// AttSpec is one embedded file: name tree key, /F and /UF names (empty UF = absent), content.
+type AttSpec struct {
+	Key, F, UF string
+	NoUF       bool
+	Data       []byte
+}
+
+// WithAttachments builds a one-page document with an EmbeddedFiles name tree (single leaf).
+func WithAttachments(atts []AttSpec) []byte {
+	d := Simple([]PageSpec{{Marker: 1}}, SimpleOpts{})
+	var names []string
+	// name tree keys must be sorted
+	sorted := append([]AttSpec{}, atts...)
+	sort.SliceStable(sorted, func(i, j int) bool { return sorted[i].Key < sorted[j].Key })
+	for _, a := range sorted {
+		ef := d.AddStream("<</Type/EmbeddedFile>>", a.Data)
+		uf := ""
+		if !a.NoUF {
+			uf = "/UF" + HexStr(a.UF)
+		}
+		fs := d.Add(fmt.Sprintf("<</Type/Filespec/F%s%s/EF<</F %s>>>>", HexStr(a.F), uf, Ref(ef)))
+		names = append(names, HexStr(a.Key)+" "+Ref(fs))
+	}
+	nt := d.Add(fmt.Sprintf("<</Names[%s]>>", strings.Join(names, " ")))
+	cat := d.objs[d.Root]
+	cat.body = strings.TrimSuffix(cat.body, ">>") + fmt.Sprintf("/Names<</EmbeddedFiles %s>>>>", Ref(nt))
+	return d.Bytes()
+}
